@@ -126,6 +126,12 @@ pub fn gen_c13(rng: &mut Rng, i: u64, tier: Tier) -> Script {
         2 => rng.range(2, 300) as i64,
         _ => 4096,
     });
+    if rng.chance(1, 10) {
+        let tp = rng.range(50, 3000);
+        let pv = valid_stream(rng, zlib, tp, 32768, None);
+        s.set("prelude", rng.range(1, 8) as i64);
+        s.set_blob("prelude_stream", pv.bytes);
+    }
     s.set_blob("stream", vs.bytes);
     s
 }
